@@ -17,7 +17,9 @@ def one(d):
     try:
         subprocess.check_call(["git", "-C", "/repo", "worktree", "add", "-q", "--detach", wt, "HEAD"])
         subprocess.check_call(["git", "-C", wt, "apply", os.path.join(d, "patch.diff")])
-        r = subprocess.run(["./check", pid], cwd=VERIF, stdout=subprocess.PIPE, stderr=subprocess.STDOUT, text=True,
+        # a change that needs one call of >= 2^32 bytes is only within reach of the thorough tier: recorded in checks_result
+        tier = ["--tier", "thorough"] if "--tier thorough" in meta.get("checks_result", "") else []
+        r = subprocess.run(["./check", pid] + tier, cwd=VERIF, stdout=subprocess.PIPE, stderr=subprocess.STDOUT, text=True,
                            env=dict(os.environ, VERIF_REPO=wt))
         last = [l for l in r.stdout.strip().split("\n") if l.startswith(("VIOLATION", "OK", "KNOWN"))]
         return os.path.basename(d), pid, r.returncode, " / ".join(last)[:200]
